@@ -38,6 +38,22 @@ CLAIMED = {
     'C19': ("6/C19", "Match/identity relations for unbounded symbolic ids and names; edge hash with uninterpreted hash functions; de-duplication on symbolic sequences."),
 }
 
+# what else takes part in deciding a property, beyond the generic per-path validity queries
+TECH_EXTRA = {
+    'C03': "; differential of two symbolic executions of the same history (with / without observations) on shared variables, equality of the final terms decided by z3",
+    'C04': "; max/min over listed contents encoded as z3 If-chains (no forking)",
+    'C06': "; chain equation with z3 If-max over relation leaves",
+    'C09': "; exported program executed on a symbolic-phase Aaronson-Gottesman tableau (sign bits = GF(2) affine forms), z3 decides record == prescribed term for all initial states at once",
+    'C10': "; one disjunctive no-overlap validity query per path over the four global durations",
+    'C11': "; plus one ground (non-symbolic) deep-flatten witness stated as such in the evidence bounds",
+    'C12': "; unbounded symbolic integers for round counts (QF_LIA)",
+    'C14': "; exp() as an uninterpreted binary function (congruence only), probabilities as real terms",
+    'C15': "; exporter executed on a recording stand-in of the OpenQL platform/program/kernel API",
+    'C16': "; finite tables extracted from the real predicates on every run, equivalence with the statement's predicate decided by z3 over symbolic edge/qubit indices (bounded quantification over the extracted table)",
+    'C17': "; shipped gate tables loaded into z3 lookup functions, one solver witness query per clause over symbolic layer/gate/qubit indices",
+    'C19': "; uninterpreted hash functions for str/tuple hashing, names as (symbolic integer, case bit)",
+}
+
 NOT_YET = "check not built yet in this round (work in progress; see DESIGN.md section 6 for the plan)"
 NOT_APPLICABLE = {}
 
@@ -48,7 +64,7 @@ def main():
         if pid not in CLAIMED:
             continue
         sec, spec = CLAIMED[pid]
-        text, note, tech = GENERIC_TEXT + spec, GENERIC_NOTE, GENERIC_TECH
+        text, note, tech = GENERIC_TEXT + spec, GENERIC_NOTE, GENERIC_TECH + TECH_EXTRA.get(pid, '')
         checks.append({
             'property_id': pid,
             'quick_cmd': f"./check {pid} --tier quick",
